@@ -24,7 +24,13 @@ type dynCase struct {
 	Name   string `json:"name"`
 	Code   int64 `json:"arg_code"`
 	Depths []int `json:"depths"` // stack depth (frames) of each call of the mocked function
+	// Share > 0: the placeholder of another function of the same signature is used; Pre: functions of that signature (offsets in the group)
+	// that are mocked through the same placeholder, called once and reset before the target is
+	Share int   `json:"share,omitempty"`
+	Pre   []int `json:"pre,omitempty"`
 }
+
+var groups = map[reflect.Type][]int{}
 
 var img *vkit.TextImage
 var all []*corpus.Fn
@@ -82,8 +88,39 @@ func restoreGlobals(g [3]interface{}) {
 func runDyn(ci interface{}, s *vkit.Stats) error {
 	c := ci.(*dynCase)
 	k := c.Target % len(all)
+	grp := groups[all[k].Type]
+	pos := 0
+	for i, x := range grp {
+		if x == k {
+			pos = i
+		}
+	}
+	owner := k
+	if c.Share > 0 && len(grp) > 1 {
+		owner = grp[(pos+c.Share)%len(grp)]
+	}
+	if len(grp) > 1 {
+		for _, p := range c.Pre {
+			if err := runStep(c, grp[(pos+p)%len(grp)], owner, []int{-1}, s, true); err != nil {
+				return fmt.Errorf("(prelude) %v", err)
+			}
+		}
+		if len(c.Pre) > 0 {
+			s.Class("placeholder-used-by-other-functions-before")
+		}
+	}
+	if owner != k {
+		s.Class("placeholder-of-another-function")
+	}
+	return runStep(c, k, owner, c.Depths, s, false)
+}
+
+// runStep mocks function k with the origin placeholder of function owner (same signature), calls it and resets.
+func runStep(c *dynCase, k, owner int, depths []int, s *vkit.Stats, prelude bool) error {
 	fn := all[k]
 	m := metas[k]
+	m.ph = metas[owner].ph
+	ofn := all[owner]
 	args := argsFor(fn, c.Code)
 	g0 := snapshotGlobals()
 	defer restoreGlobals(g0)
@@ -100,9 +137,12 @@ func runDyn(ci interface{}, s *vkit.Stats) error {
 	b := mocker.Create()
 	defer b.Reset()
 	rec := &corpus.Rec{}
-	rec.Hook = func(a []reflect.Value) { rec.Res = fn.CallOrigin(a) }
-	pv := guard(func() { b.Func(fn.Fn).Origin(fn.Origin).Apply(fn.MkRepl(rec)) })
+	rec.Hook = func(a []reflect.Value) { rec.Res = ofn.CallOrigin(a) }
+	pv := guard(func() { b.Func(fn.Fn).Origin(ofn.Origin).Apply(fn.MkRepl(rec)) })
 	where := fmt.Sprintf("%s %s (stack check: %v)", fn.Name, fn.Type, m.stackCheck)
+	if owner != k {
+		where += " with the origin placeholder " + "O" + ofn.Name
+	}
 	if pv != nil {
 		// refused: function and placeholder unchanged, function not mocked
 		if !bytes.Equal(fnBefore, vkit.Bytes(m.entry, len(fnBefore))) {
@@ -137,7 +177,7 @@ func runDyn(ci interface{}, s *vkit.Stats) error {
 	s.Class("accepted")
 	s.Class("shape/" + info.Shape)
 	// execute: call the mocked function from goroutines of generated stack depth; the callback forwards to the placeholder
-	for _, d := range c.Depths {
+	for _, d := range depths {
 		if m.stackCheck {
 			d = -1 // known finding origin-morestack-reentry: stack-check targets only with headroom
 		}
@@ -171,8 +211,10 @@ func runDyn(ci interface{}, s *vkit.Stats) error {
 			s.Class("origin-call/at-generated-depth")
 		}
 	}
-	s.NonTrivial(fmt.Sprintf("%d/%d/%v", k, c.Code, c.Depths))
-	s.Sample(c)
+	if !prelude {
+		s.NonTrivial(fmt.Sprintf("%d/%d/%d/%v/%v", k, owner, c.Code, c.Depths, c.Pre))
+		s.Sample(c)
+	}
 	return nil
 }
 
@@ -192,6 +234,7 @@ func setup(t *testing.T) {
 		if !ok {
 			t.Fatalf("placeholder of %s not in image", fn.Name)
 		}
+		groups[fn.Type] = append(groups[fn.Type], len(metas))
 		metas = append(metas, meta{entry: e, end: uintptr(f.End), ph: [2]uintptr{uintptr(pf.Entry), uintptr(pf.End)},
 			stackCheck: hasStackCheck(vkit.Bytes(e, int(uintptr(f.End)-e)))})
 	}
@@ -209,6 +252,12 @@ func TestVerifC03Dynamic(t *testing.T) {
 			}
 			c.Name = all[c.Target].Name
 			c.Depths = rapid.SliceOfN(rapid.OneOf(rapid.IntRange(0, 40), rapid.IntRange(0, 700)), 1, 6).Draw(rt, "depths")
+			if len(groups[all[c.Target].Type]) > 1 {
+				if rapid.Bool().Draw(rt, "shared") {
+					c.Share = rapid.IntRange(1, 5).Draw(rt, "share")
+				}
+				c.Pre = rapid.SliceOfN(rapid.IntRange(0, 5), 0, 3).Draw(rt, "pre")
+			}
 			return c
 		},
 		Run: runDyn}
